@@ -200,7 +200,7 @@ Definition sort_resolved (m : resolved) : resolved :=
   isort (fun a b => ble (fst a) (fst b)) m.
 
 Definition vary_encoding (m : resolved) : bytes :=
-  flat_map (fun kv => fst kv ++ snd kv) (sort_resolved m).
+  flat_map (fun kv => fst kv ++ [0] ++ snd kv ++ [0]) (sort_resolved m).
 
 Definition make_vary_key (url_key : bytes) (m : resolved) : bytes :=
   match m with
@@ -244,16 +244,23 @@ Fixpoint resolved_match (m : resolved) (h : headers) : option bool :=
   end.
 
 Definition ref_matches (r : ref) (h : headers) : option bool :=
-  if beq (r_vary r) (bs "*") then Some false else resolved_match (r_resolved r) h.
+  if amem (bs "*") (r_resolved r) || beq (go_trim (r_vary r)) (bs "*") then Some false
+  else resolved_match (r_resolved r) h.
 
-Fixpoint find_match (l : list ref) (h : headers) (i : Z) : option (option Z) :=
+(* the matching ref with the latest Date; of equally recent ones the first in the sorted order *)
+Fixpoint find_match (l : list ref) (h : headers) (i : Z) (best : option (Z * Z)) : option (option Z) :=
   match l with
-  | [] => Some None
+  | [] => Some (option_map fst best)
   | r :: rest =>
       match ref_matches r h with
       | None => None
-      | Some true => Some (Some i)
-      | Some false => find_match rest h (i + 1)
+      | Some true =>
+          let better := match best with
+                        | None => true
+                        | Some (_, t) => t <? r_recv r
+                        end in
+          find_match rest h (i + 1) (if better then Some (i, r_recv r) else best)
+      | Some false => find_match rest h (i + 1) best
       end
   end.
 
@@ -261,7 +268,7 @@ Fixpoint find_match (l : list ref) (h : headers) (i : Z) : option (option Z) :=
    and the index of the first match.  Outer [None]: outside the modelled domain. *)
 Definition vary_headers_match (refs : list ref) (h : headers) : option (list ref * option Z) :=
   let s := sort_refs refs in
-  match find_match s h 0 with
+  match find_match s h 0 None with
   | None => None
   | Some i => Some (s, i)
   end.
